@@ -209,6 +209,9 @@ type RtspCase struct {
 	// FeedAfter: frames the healthy feed publishes after the hostile bytes were delivered (subscriber stages)
 	FeedAfter int   `json:"feed_after,omitempty"`
 	Slices    []int `json:"slices,omitempty"`
+	// Repeat > 0 (regression corpus only): the exchange is repeated on that many further fresh servers, to give a
+	// scheduling-dependent failure (lal hands the publisher's SDP to the group in a goroutine of its own) a chance
+	Repeat int `json:"repeat,omitempty"`
 }
 
 const hostileUri = "rtsp://127.0.0.1:5544/live/c13hostile"
@@ -586,6 +589,45 @@ func genRtspCase(t *rapid.T) RtspCase {
 			c.Steps = append(c.Steps, Step{Req: genReq(t, &c)})
 		}
 	}
+	if trs := c.tracks(); len(trs) > 0 && rapid.IntRange(0, 2).Draw(t, "burst") == 0 {
+		// a fragmented unit in consecutive packets, so that reassembly is reached (possibly with a degraded member)
+		tr := rapid.SampledFrom(trs).Draw(t, "burstTrack")
+		var parts []pl
+		switch tr.codec {
+		case "avc":
+			parts = []pl{{"avc-fua-start", "7c85888400"}, {"avc-fua-mid", "7c05aabb"}, {"avc-fua-end", "7c45ccdd"}}
+		case "hevc":
+			parts = []pl{{"hevc-fu-start", "620193aabb"}, {"hevc-fu-mid", "620113cc"}, {"hevc-fu-end", "620153dd"}}
+		case "aac":
+			parts = []pl{{"aac-au-fragment-start", "00100060aabbccdd"}, {"aac-au-fragment-cont", "00100060eeff0011"}, {"aac-au-fragment-last", "0010006022334455"}}
+		default:
+			parts = []pl{{"raw", "d5d5"}, {"raw", "d5d5"}}
+		}
+		degrade := rapid.IntRange(-1, len(parts)-1).Draw(t, "burstDegrade")
+		var burst []Step
+		for i, p := range parts {
+			st.seq++
+			r := RtpSpec{Ver: 2, PT: tr.pt, Seq: st.seq, TS: st.ts, SSRC: st.ssrc, Kind: "burst-" + p.kind, Payload: Blob{Hex: p.hex}, CutTo: -1, Marker: i == len(parts)-1}
+			if i == degrade {
+				switch rapid.IntRange(0, 3).Draw(t, "burstHow") {
+				case 0:
+					if n := rapid.SampledFrom([]int{2, 4, 6}).Draw(t, "burstCut"); n < len(p.hex) {
+						r.Payload.Hex = p.hex[:n]
+					}
+				case 1:
+					r.Pad, r.PadCnt, r.PadFill = true, rapid.SampledFrom([]int{1, 2, 3, 4, 5}).Draw(t, "burstPad"), 0
+				case 2:
+					r.TS += 90
+				default:
+					r.Seq += 2
+					st.seq += 2
+				}
+			}
+			burst = append(burst, Step{Frame: &Frame{Chan: tr.ch, Rtp: &r, DeclLen: -1}})
+		}
+		at := rapid.IntRange(0, len(c.Steps)).Draw(t, "burstAt")
+		c.Steps = append(c.Steps[:at:at], append(burst, c.Steps[at:]...)...)
+	}
 	c.Mut = genMut(t)
 	if c.subscriberSide() {
 		c.FeedAfter = rapid.IntRange(0, 3).Draw(t, "feedAfter")
@@ -641,6 +683,15 @@ func deliverRtsp(s *inproc.Server, conn *memconn.Conn, wire []byte, slices []int
 }
 
 func runRtsp(c RtspCase) *pbt.Violation {
+	for i := 0; i < c.Repeat; i++ {
+		if v := runRtspOnce(c); v != nil {
+			return v
+		}
+	}
+	return runRtspOnce(c)
+}
+
+func runRtspOnce(c RtspCase) *pbt.Violation {
 	s := newServer()
 	defer s.Close()
 	var fd *feed
